@@ -247,3 +247,65 @@ func within(lo, hi *big.Int, base []Iv, contiguous bool) bool {
 func Anchored(p string) *regexp.Regexp {
 	return regexp.MustCompile(`^(?:` + p + `)$`)
 }
+
+// GenPattern draws a pattern from a small regular-expression grammar on which XSD and RE2 agree
+// (literals a b c, '.', classes, groups, alternation at every level including the top, quantifiers).
+func GenPattern(pick func(n int, label string) int, depth int) string {
+	var alt func(d int) string
+	atom := func(d int) string {
+		k := pick(8, "atom")
+		if d <= 0 && k == 7 {
+			k = 0
+		}
+		switch k {
+		case 0, 1:
+			return "a"
+		case 2:
+			return "b"
+		case 3:
+			return "c"
+		case 4:
+			return "."
+		case 5:
+			return "[ab]"
+		case 6:
+			return "[^a]"
+		default:
+			return "(" + alt(d-1) + ")"
+		}
+	}
+	branch := func(d int) string {
+		n := 1 + pick(3, "npieces")
+		s := ""
+		for i := 0; i < n; i++ {
+			s += atom(d) + []string{"", "", "", "*", "+", "?", "{1,2}", "{2}"}[pick(8, "quant")]
+		}
+		return s
+	}
+	alt = func(d int) string {
+		n := 1 + pick(3, "nbranches")
+		s := branch(d)
+		for i := 1; i < n; i++ {
+			s += "|" + branch(d)
+		}
+		return s
+	}
+	return alt(depth)
+}
+
+// SmallStrings returns every string of length 0..n over the alphabet.
+func SmallStrings(alphabet string, n int) []string {
+	out := []string{""}
+	level := []string{""}
+	for i := 0; i < n; i++ {
+		var next []string
+		for _, s := range level {
+			for _, c := range alphabet {
+				next = append(next, s+string(c))
+			}
+		}
+		out = append(out, next...)
+		level = next
+	}
+	return out
+}
